@@ -9,6 +9,9 @@
  *   V <expr>           as W, the top-level view constructed with the stack macros range(…) slice(…) reverse(…) zip(…)
  *                      enumerate(…) filter(…) map(…) of Cello.h
  *   S <n> <a> <b> <c>  slice_stack on an Array of n items: prints  O range=<start>,<stop>,<step> len=<Slice_Len>
+ *   G <i> <k> <expr>   `foreach` whose body calls get(obj, k) right after item number i (from 0; an exception of that get is
+ *                      swallowed): prints  O g=[items] ge=<term|exc|fuel>
+ *   Z <k> <expr>       zip(x, …, x): ONE object x = <expr>, k times (1 <= k <= 6) in a Zip; walked as W (without get)
  *   expr ::= (array v*) | (list v*) | (tuple id*) | (table s*)  s = `.` | key   — slot array written white-box
  *          | (tree S)  S = `.` | (S k S)  — nodes linked white-box | (rtree k*)  — built with set()
  *          | (range a*) | (slice E a*) | (reverse E) | (zip E*) | (enum E) | (filter E m r) | (map E a b)     a = int | `_`
@@ -37,9 +40,16 @@
  * its reverse; len = its length; get(i) = its i-th element.
  * Deviations inside known-finding territory carry the KF signature, everything else a distinct one:
  *   kf-c11-tuple-dup    walk over a Tuple holding the same object twice (F13)
- *   kf-c11-slice        Slice iteration outside the parameter region in which it is right (F11) — region: slice_in_region()
- *   kf-c11-zip-back     backward walk over a Zip of inputs of unequal length (F12)
- *   c11-forward c11-backward c11-len c11-get c11-crash c11-construct   anything else
+ *   kf-c11-slice        Slice iteration outside the parameter region in which it is right (F11) — region: walk_cause():
+ *                       over an iterable that answers Terminal to a Terminal cursor (Tuple, Range, Map / Filter / Slice over
+ *                       them) the positions visited must be the positions selected; over any other the stride must fit
+ *   kf-c11-zip-back     backward walk over / get at a negative index of a Zip of inputs of unequal length (F12)
+ *   kf-c11-get-walk     `G`: get on a Range / Map / Zip / enumerate (or a Slice over one) during a walk overwrites its cursor
+ *   kf-c11-zip-alias    `Z`: one Range / Map / Zip object (or a Slice / Filter over one) several times in a Zip shares one cursor
+ *   c11-forward c11-backward c11-len c11-get c11-get-walk c11-crash c11-construct   anything else
+ * A deviation carries a kf- signature only where NO theorem covers that walk (the same case analysis as `dirOf` in
+ * lean/CelloProofs/Lemmas/IterCompose.lean, per direction): a wrong forward walk of a view over a Zip of unequal inputs, or
+ * of a stepped Slice over a Tuple, is c11-forward.
  * For a container at the top level of a `W` line the cursors are checked BEFORE they are dereferenced: the k-th forward
  * cursor of an Array / List must be the pointer get(k) returns, the k-th backward cursor must be the (n-1-k)-th forward one;
  * a cursor that is neither ends the walk as `stray` (c11-forward / c11-backward) without being read.
@@ -510,50 +520,99 @@ static int def_has_get(Node* n) {
 }
 
 /* ------------------------------------------------------------------------------------------------ known-finding territory */
-static int has_dup_tuple(Node* n) {
-  if (n->kind == K_TUPLE) for (size_t i = 0; i < n->nv; i++) for (size_t j = 0; j < i; j++) if (n->v[i] == n->v[j]) return 1;
-  for (size_t i = 0; i < n->nk; i++) if (has_dup_tuple(n->kid[i])) return 1;
-  return 0;
+/* Which walk of which expression is outside every theorem, and why — per direction (dir 0 = forward, 1 = backward).
+   absorbs(n, dir): the object answers Terminal again when Terminal is handed back to it as a cursor after a walk in that
+   direction (Tuple without a repeated object: the search finds nothing; Range: the arithmetic stays beyond the end;
+   inherited by Map and Filter; a Slice over such an object in its region; step 0 is Terminal at once).
+   Slice regions (a, b already clamped to [0, n]):
+     exact(dir)   the stride lands exactly on Terminal and stop / start cuts nothing off — right over ANY iterable
+     visited(dir) over an absorbing iterable: the positions the walk visits (it runs to the end of the underlying sequence)
+                  are the positions the definition selects — no divisibility condition */
+static int same_positions(const int64_t* p, size_t np, const int64_t* q, size_t nq, int rev) {
+  if (np != nq) return 0;
+  for (size_t i = 0; i < np; i++) if (p[i] != q[rev ? nq - 1 - i : i]) return 0;
+  return 1;
 }
-/* the parameter region in which Slice iteration is right in BOTH directions for every underlying iterable
-   (theorem C11_slice_partial; a, b already clamped to [0, n]) */
-static int slice_in_region(int64_t n, int64_t a, int64_t b, int64_t c) {
+static int slice_region_exact(int64_t n, int64_t a, int64_t b, int64_t c, int dir) {
   if (c == 0) return 1;
-  if (c > 0) {
-    int fwd = (a == n) || ((n - a) % c == 0 && n - c < b);
-    int bwd = (b == 0) || (b % c == 0 && a == c - 1);
-    return fwd && bwd;
-  } else {
-    int64_t k = -c;
-    int fwd = (b == 0) || (b % k == 0 && a <= k - 1);
-    int bwd = (a == n) || ((n - a) % k == 0 && b == n - k + 1);
-    return fwd && bwd;
+  if (c > 0) return dir == 0 ? ((a == n) || ((n - a) % c == 0 && n - c < b)) : ((b == 0) || (b % c == 0 && a == c - 1));
+  int64_t k = -c;
+  return dir == 0 ? ((b == 0) || (b % k == 0 && a <= k - 1)) : ((a == n) || ((n - a) % k == 0 && b == n - k + 1));
+}
+static int slice_region_visited(int64_t n, int64_t a, int64_t b, int64_t c, int dir) {
+  static int64_t sel[CAP + 8], vis[CAP + 8];
+  if (c == 0) return 1;
+  size_t ns = range_positions(a, b, c, sel, CAP + 4), nv;
+  if (dir == 0) { nv = c > 0 ? range_positions(a, n, c, vis, CAP + 4) : range_positions(0, b, c, vis, CAP + 4); return same_positions(vis, nv, sel, ns, 0); }
+  nv = c > 0 ? range_positions(0, b, -c, vis, CAP + 4) : range_positions(a, n, -c, vis, CAP + 4);
+  return same_positions(vis, nv, sel, ns, 1);
+}
+static int tuple_has_dup(Node* n) { for (size_t i = 0; i < n->nv; i++) for (size_t j = 0; j < i; j++) if (n->v[i] == n->v[j]) return 1; return 0; }
+static const char* walk_cause(Node* n, int dir);
+static int absorbs(Node* n, int dir) {
+  switch (n->kind) {
+    case K_TUPLE: return !tuple_has_dup(n);
+    case K_RANGE: return 1;
+    case K_MAP: case K_FILTER: return absorbs(n->kid[0], dir);
+    case K_SLICE: {
+      int64_t len = (int64_t)ref_of(n->kid[0]).n, a, b, c; slice_params(n, len, &a, &b, &c);
+      if (c == 0) return 1;
+      int cd = c > 0 ? dir : !dir;
+      return absorbs(n->kid[0], cd) && slice_region_visited(len, a, b, c, dir);
+    }
+    default: return 0;
   }
 }
-static int slice_territory(Node* n) {
-  if (n->kind == K_SLICE) {
-    int64_t len = (int64_t)ref_of(n->kid[0]).n, a, b, c; slice_params(n, len, &a, &b, &c);
-    if (!slice_in_region(len, a, b, c)) return 1;
+/* NULL: a theorem covers this walk of this expression; otherwise the signature of the known finding that excludes it */
+static const char* walk_cause(Node* n, int dir) {
+  const char* c0;
+  switch (n->kind) {
+    case K_TUPLE: return tuple_has_dup(n) ? "kf-c11-tuple-dup" : NULL;
+    case K_SLICE: {
+      int64_t len = (int64_t)ref_of(n->kid[0]).n, a, b, c; slice_params(n, len, &a, &b, &c);
+      if (c == 0) return NULL;
+      int cd = c > 0 ? dir : !dir;
+      if ((c0 = walk_cause(n->kid[0], cd))) return c0;
+      if (absorbs(n->kid[0], cd) && slice_region_visited(len, a, b, c, dir)) return NULL;
+      return slice_region_exact(len, a, b, c, dir) ? NULL : "kf-c11-slice";
+    }
+    case K_ZIP: {
+      for (size_t i = 0; i < n->nk; i++) if ((c0 = walk_cause(n->kid[i], dir))) return c0;
+      if (dir == 1 && n->nk >= 2) { size_t l0 = ref_of(n->kid[0]).n; for (size_t i = 1; i < n->nk; i++) if (ref_of(n->kid[i]).n != l0) return "kf-c11-zip-back"; }
+      return NULL;
+    }
+    case K_ENUM: case K_FILTER: case K_MAP: return walk_cause(n->kid[0], dir);
+    default: return NULL;
   }
-  for (size_t i = 0; i < n->nk; i++) if (slice_territory(n->kid[i])) return 1;
+}
+static int zip_unequal_in(Node* n) {
+  if (n->kind == K_ZIP && n->nk >= 2) { size_t l0 = ref_of(n->kid[0]).n; for (size_t i = 1; i < n->nk; i++) if (ref_of(n->kid[i]).n != l0) return 1; }
+  for (size_t i = 0; i < n->nk; i++) if (zip_unequal_in(n->kid[i])) return 1;
   return 0;
 }
-/* a Zip of inputs of unequal length; under_slice: only those below a Slice (whose forward walk may step the Zip backwards) */
-static int zip_unequal_in(Node* n, int need_slice, int under_slice) {
-  if (n->kind == K_ZIP && n->nk >= 2 && (!need_slice || under_slice)) { size_t l0 = ref_of(n->kid[0]).n; for (size_t i = 1; i < n->nk; i++) if (ref_of(n->kid[i]).n != l0) return 1; }
-  for (size_t i = 0; i < n->nk; i++) if (zip_unequal_in(n->kid[i], need_slice, under_slice || n->kind == K_SLICE)) return 1;
-  return 0;
+/* get(obj, k) leaves a walk over obj alone: the containers, Slice / Filter over them (Filter has no Get instance) */
+static int get_pure(Node* n) {
+  switch (n->kind) { case K_RANGE: case K_ZIP: case K_ENUM: case K_MAP: return 0; case K_SLICE: return get_pure(n->kid[0]); default: return 1; }
 }
-enum { A_FWD, A_BWD, A_LEN, A_GET, A_CRASH, A_CONSTRUCT, A_MUT, A_LINKS };
+/* the cursor of a walk lives inside the object (not in the pointer the caller holds) */
+static int in_object(Node* n) {
+  switch (n->kind) { case K_RANGE: case K_ZIP: case K_ENUM: case K_MAP: return 1; case K_SLICE: case K_FILTER: return in_object(n->kid[0]); default: return 0; }
+}
+static Node* zalias;     /* `Z`: the one object that the Zip under test holds several times (NULL otherwise) */
+enum { A_FWD, A_BWD, A_LEN, A_GET, A_CRASH, A_CONSTRUCT, A_MUT, A_LINKS, A_GETWALK, A_GETNEG };
 static const char* sig_for(Node* n, int aspect) {
-  int walk = aspect == A_FWD || aspect == A_BWD || aspect == A_CRASH;
-  if (walk && has_dup_tuple(n)) return "kf-c11-tuple-dup";
-  if (walk && slice_territory(n)) return "kf-c11-slice";
-  if (aspect == A_BWD && zip_unequal_in(n, 0, 0)) return "kf-c11-zip-back";
-  if (walk && zip_unequal_in(n, 1, 0)) return "kf-c11-zip-back";
+  const char* c0 = NULL;
+  int walk = aspect == A_FWD || aspect == A_BWD || aspect == A_CRASH || aspect == A_GETWALK;
+  if (walk && zalias && in_object(zalias)) return "kf-c11-zip-alias";
+  if (aspect == A_FWD || aspect == A_GETWALK) c0 = walk_cause(n, 0);
+  if (aspect == A_BWD) c0 = walk_cause(n, 1);
+  if (aspect == A_CRASH) { c0 = walk_cause(n, 0); if (!c0) c0 = walk_cause(n, 1); }
+  if (c0) return c0;
+  if (aspect == A_GETWALK && !get_pure(n)) return "kf-c11-get-walk";
+  if (aspect == A_GETNEG && zip_unequal_in(n)) return "kf-c11-zip-back";
   switch (aspect) { case A_FWD: return "c11-forward"; case A_BWD: return "c11-backward"; case A_LEN: return "c11-len";
-                    case A_GET: return "c11-get"; case A_CRASH: return "c11-crash"; case A_MUT: return "c11-mutation";
-                    case A_LINKS: return "c11-representation"; default: return "c11-construct"; }
+                    case A_GET: case A_GETNEG: return "c11-get"; case A_CRASH: return "c11-crash"; case A_MUT: return "c11-mutation";
+                    case A_LINKS: return "c11-representation"; case A_GETWALK: return "c11-get-walk"; default: return "c11-construct"; }
 }
 
 /* ------------------------------------------------------------------------------------------------ walking */
@@ -716,7 +775,7 @@ static void walk_obj(Node* n, var obj, size_t lineno) {
     else if (glen != ref.n) { snprintf(what, sizeof what, "len = %zu, the definition selects %zu", glen, ref.n); deviation(n, A_LEN, lineno, what); }
   } else if (glen_ok) { snprintf(what, sizeof what, "len = %zu on a type without Len", glen); deviation(n, A_LEN, lineno, what); }
   /* get */
-  if (glen_ok && def_has_get(n) && glen <= CAP) {
+  if (glen_ok && def_has_get(n) && glen <= CAP && !zalias) {
     LP(" get=["); int gbad = 0;
     for (size_t i = 0; i < glen; i++) {
       char b[512];
@@ -729,7 +788,7 @@ static void walk_obj(Node* n, var obj, size_t lineno) {
     if (gbad) deviation(n, A_GET, lineno, what);
     /* get at and beyond the ends: -1 (the last), -len (the first), -len-1 and len (must raise) */
     int64_t probe[4] = { -1, -(int64_t)glen, -(int64_t)glen - 1, (int64_t)glen };
-    int checked = n->kind == K_ARRAY || n->kind == K_LIST || n->kind == K_TUPLE || n->kind == K_RANGE || (n->kind == K_MUT && n->mkind <= M_ARRAY);
+    int checked = 1;      /* every type with a positional Get: negative = from the end, outside [-len, len) must raise */
     LP(" gx=["); gbad = 0;
     for (int q = 0; q < 4; q++) {
       char b[512];
@@ -742,11 +801,56 @@ static void walk_obj(Node* n, var obj, size_t lineno) {
       }
     }
     LP("]");
-    if (gbad) deviation(n, A_GET, lineno, what);
+    if (gbad) deviation(n, A_GETNEG, lineno, what);
   } else LP(" get=- gx=-");
   O("%s", line);
 }
 
+
+/* ------------------------------------------------------------------------------------------------ `G`: get during a walk */
+static void do_fwd_get(var obj, size_t at, int64_t k) {
+  ngot = 0; gend = "term";
+  foreach (x in obj) {
+    got[ngot++] = show_dup(x); if (ngot >= CAP) { gend = "fuel"; break; }
+    if (ngot == at + 1) { var e; V_TRY(e, get(obj, $I(k))); (void)e; }
+  }
+}
+static void op_get_walk(Node* n, size_t at, int64_t k, size_t lineno) {
+  static char what[1024];
+  nclos_p = nclos_f = 0;
+  var exc; volatile var obj = NULL;
+  V_TRY(exc, obj = build(n));
+  if (exc) { O("construct=%s", v_exc_name(exc)); return; }
+  RL ref = ref_of(n);
+  ll = 0;
+  V_TRY(exc, do_fwd_get(obj, at, k)); if (exc) gend = "exc";
+  LP("g="); print_items(); LP(" ge=%s", gend);
+  st_items += ngot;
+  int bad = strcmp(gend, "term") != 0 || ngot != ref.n;
+  for (size_t i = 0; !bad && i < ngot; i++) if (strcmp(got[i], ref.v[i].s)) bad = 1;
+  if (bad) { snprintf(what, sizeof what, "foreach with get(obj, %lld) after item %zu yields %zu items ending %s, the definition selects %zu", (long long)k, at, ngot, gend, ref.n);
+    deviation(n, A_GETWALK, lineno, what); }
+  for (size_t i = 0; i < ngot; i++) free(got[i]);
+  O("%s", line);
+}
+
+/* ------------------------------------------------------------------------------------------------ `Z`: one object k times in a Zip */
+static var build_zip_same(Node* e, size_t k) {
+  var arr[9]; var x = build(e);
+  for (size_t i = 0; i < k; i++) arr[i] = x;
+  arr[k] = Terminal;
+  return new_raw_with(Zip, $(Tuple, arr));
+}
+static void op_zip_same(Node* e, size_t k, size_t lineno) {
+  nclos_p = nclos_f = 0;
+  Node* z = calloc(1, sizeof(Node)); z->kind = K_ZIP; z->nk = k; for (size_t i = 0; i < k; i++) z->kid[i] = e;
+  var exc; volatile var obj = NULL;
+  V_TRY(exc, obj = build_zip_same(e, k));
+  if (exc) { O("construct=%s", v_exc_name(exc)); return; }
+  zalias = e;
+  walk_obj(z, obj, lineno);
+  zalias = NULL;
+}
 
 /* ------------------------------------------------------------------------------------------------ `L`: white-box layout */
 static size_t tree_inorder(struct Tree* m, var node, var parent, int64_t* out, size_t k, size_t cap, int* bad) {
@@ -852,6 +956,16 @@ static void worker(char** lines, size_t n, size_t from) {
     else if (l[0] == 'V' && l[1] == ' ') { Node* e = parse_line(l + 2); if (!e) O("bad-op"); else op_walk_macro(e, li + 1); }
     else if (l[0] == 'L' && l[1] == ' ') { Node* e = parse_line(l + 2); if (!e) O("bad-op"); else op_layout(e, li + 1); }
     else if (l[0] == 'S' && l[1] == ' ') op_slice_arg(l + 2, li + 1);
+    else if (l[0] == 'G' && l[1] == ' ') {
+      long long at, k; int used = 0;
+      if (sscanf(l + 2, "%lld %lld %n", &at, &k, &used) < 2 || at < 0 || !used) O("bad-op");
+      else { Node* e = parse_line(l + 2 + used); if (!e) O("bad-op"); else op_get_walk(e, (size_t)at, k, li + 1); }
+    }
+    else if (l[0] == 'Z' && l[1] == ' ') {
+      long long k; int used = 0;
+      if (sscanf(l + 2, "%lld %n", &k, &used) < 1 || k < 1 || k > 6 || !used) O("bad-op");
+      else { Node* e = parse_line(l + 2 + used); if (!e) O("bad-op"); else op_zip_same(e, (size_t)k, li + 1); }
+    }
     else O("bad-op");
     sh->ops += 1; sh->items = st_items; sh->dev = st_dev; sh->kf = st_kf;
   }
@@ -882,7 +996,15 @@ int main(int argc, char** argv) {
     crashes++;
     O("crash");
     Node* e = (lines[k][0] == 'W' || lines[k][0] == 'V' || lines[k][0] == 'L') ? parse_line(lines[k] + 2) : NULL;
-    const char* sig = e ? sig_for(e, A_CRASH) : "c11-crash";
+    int gz = lines[k][0] == 'G' || lines[k][0] == 'Z';
+    if (gz) {   /* skip the leading numbers */
+      const char* q = lines[k] + 2; int nnum = lines[k][0] == 'G' ? 2 : 1;
+      for (int i = 0; i < nnum; i++) { while (*q && *q != ' ') q++; while (*q == ' ') q++; }
+      e = parse_line(q);
+      if (e && lines[k][0] == 'Z') zalias = e;
+    }
+    const char* sig = e ? sig_for(e, lines[k][0] == 'G' ? A_GETWALK : A_CRASH) : "c11-crash";
+    zalias = NULL;
     dev++; if (!strncmp(sig, "kf-", 3)) kf++;
     X("sig=%s line=%zu what=the library left the iteration protocol: worker %s %d", sig, k + 1,
       WIFSIGNALED(st) ? "killed by signal" : "exited with status", WIFSIGNALED(st) ? WTERMSIG(st) : WEXITSTATUS(st));
